@@ -434,3 +434,5 @@ def run(facts, rep, tier):
     rule_r6(facts, rep)
     rep.rule("C20-R3b", "Asking a block for its note gives the owner: GraphNode::key() is Some only for the root kind (Document), and Graph::node_key climbs prev until then.")
     rule_r3b(facts, rep)
+    rep.rule("C20-R7", "= C04-R4: one live root per note - Graph::update_key tombstones the previous root (looked up unconditionally in `keys`) before the new version is built.")
+    c04.rule_r4(facts, rep, "C20-R7")
